@@ -150,6 +150,8 @@ class OpticalSetupBlock(Block):
         return len(self.channels)
 
     def __eq__(self, other: "OpticalSetupBlock") -> bool:
+        if not isinstance(other, OpticalSetupBlock):
+            return False
         buff1 = BytesIO()
         buff2 = BytesIO()
         self._write(buff1)
